@@ -1492,10 +1492,14 @@ func sxScoreNoneShouldDefect(q *sxGq) bool {
 }
 
 // sxOptimizableLeaf: compiles to a TermSearcher (or a multi-term searcher, which under scoring
-// "none" is itself a bitmap term searcher or a one-term disjunction)
+// "none" is itself a bitmap term searcher or a one-term disjunction).  A bounding box whose
+// cells all lie inside the box is a plain multi-term searcher too (search_geoboundingbox.go:
+// only the on-boundary cells get a FilteringSearcher; when there are some the clause list is not
+// rewritten and the answer is right, so the classification is never consulted).  A point
+// distance is always a FilteringSearcher: not in this class.
 func sxOptimizableLeaf(q *sxGq) bool {
 	switch q.Kind {
-	case sxQTerm, sxQPrefix, sxQWildcard, sxQRegexp, sxQFuzzy, sxQTermRange, sxQNumRange, sxQDateRange:
+	case sxQTerm, sxQPrefix, sxQWildcard, sxQRegexp, sxQFuzzy, sxQTermRange, sxQNumRange, sxQDateRange, sxQGeoBox:
 		return true
 	}
 	return false
